@@ -101,3 +101,21 @@ PROPS['C11'] = dict(
     outside='Go method-set rules are types.Implements\' (H_bind covers processBind separately)',
     assumptions=COMMON_ASSUME + ['chained bindings excluded'],
 )
+
+
+def sig(entry, **params):
+    return spec(entry, params=params, label='%s%s' % (entry, params or ''), interp=INTERP_AST)
+
+
+INTERP_AST = ['go/types', 'golang.org/x/tools/go/types/typeutil', 'errors', 'go/token', 'go/ast']
+
+PROPS['C09'] = dict(
+    level=MC,
+    quick=[sig('H_sig'), sig('H_structlit'), sig('H_inject', skeleton=1167), sig('H_inject', skeleton=11567, K=1)],
+    thorough=[sig('H_sig'), sig('H_structlit'), sig('H_inject', skeleton=11167), sig('H_inject', skeleton=115167, K=1), sig('H_inject', skeleton=13167, K=2)],
+    covers={'H_sig': ['sig-accepted', 'sig-rejected', 'provider-accepted', 'provider-dup-param'], 'H_structlit': ['structlit-accepted', 'structlit-dup'],
+            'H_inject': ['inject-accepted', 'inject-rejected', 'emitted-error-branch']},
+    bounds_text='result lists of length 0..4, each position one of {plain type (3 ids), error, func(), named func type, other func type}; 0..3 parameters / struct fields with symbolic type ids (4 ids); injector shapes {T, (T,error), (T,func()), (T,func(),error)} against providers with symbolic HasErr/HasCleanup on symbolic graphs of the listed skeletons',
+    outside='wire.Struct field lists are covered by C12 (H_field); identity of exotic function types is types.Identical\'s',
+    assumptions=COMMON_ASSUME + ['go/printer output of value expressions is stubbed in H_inject'],
+)
